@@ -1,7 +1,9 @@
 package sim
 
 import (
+	"crypto/ecdsa"
 	"crypto/elliptic"
+	"crypto/x509"
 	"errors"
 	"fmt"
 	"math"
@@ -330,4 +332,38 @@ func sigVariants(alg string, sig []byte) map[string][]byte {
 	out["der_long_form_length"] = derSeq(derInt(r, false), derInt(s, false), true)
 	out["der_padded_integer"] = derSeq(derInt(r, true), derInt(s, false), false)
 	return out
+}
+
+// zeroHashForgery: an ECDSA signature (r, s) that verifies under the given public key against an
+// ALL-ZERO digest: r = x(t*Q) mod n, s = r / t mod n (then u1 = 0, u2 = t). It is computable from
+// the public key alone and is what a verifier accepts that hashes nothing, the wrong thing, or
+// picks no digest for a curve. Returned in ASN.1 DER and in fixed-size r||s form.
+func zeroHashForgery(pub crypto.PubKey, t int64) (der, raw []byte, ok bool) {
+	rawKey, err := pub.Raw()
+	if err != nil {
+		return nil, nil, false
+	}
+	k, err := x509.ParsePKIXPublicKey(rawKey)
+	if err != nil {
+		return nil, nil, false
+	}
+	ek, isEC := k.(*ecdsa.PublicKey)
+	if !isEC {
+		return nil, nil, false
+	}
+	n := ek.Curve.Params().N
+	tt := big.NewInt(t)
+	x, _ := ek.Curve.ScalarMult(ek.X, ek.Y, tt.Bytes())
+	r := new(big.Int).Mod(x, n)
+	tinv := new(big.Int).ModInverse(tt, n)
+	if r.Sign() == 0 || tinv == nil {
+		return nil, nil, false
+	}
+	sv := new(big.Int).Mod(new(big.Int).Mul(r, tinv), n)
+	size := (ek.Curve.Params().BitSize + 7) / 8
+	raw = make([]byte, 2*size)
+	r.FillBytes(raw[:size])
+	sv.FillBytes(raw[size:])
+	der = derSeq(derInt(r.Bytes(), false), derInt(sv.Bytes(), false), false)
+	return der, raw, true
 }
